@@ -10,6 +10,8 @@ open Mkdb.Engine Mkdb.Store Mkdb.Page Mkdb.Sql Mkdb.Driver Mkdb
 
 structure St where
   db : DB := {}
+  prev : DB := {}             -- the database before the last statement (for crash images)
+  tables : List Bytes := []   -- user tables in creation order
   dead : Bool := false        -- a panic / unmodelled branch was reached: later outputs are not comparable
 
 def showSErr : SErr → String
@@ -37,9 +39,12 @@ def finish {α} (st : St) (r : Res α) : St × List String :=
   | .unmodelled w => ({ st with dead := true }, ["unmodelled " ++ w])
   | .fuel => ({ st with dead := true }, ["hang"])
 
-def runStmt (st : St) (s : Stmt) : St × List String :=
+def runStmt (st0 : St) (s : Stmt) : St × List String :=
+  let st := { st0 with prev := st0.db }
   match s with
-  | .createTable name cols => finish st (evalCreateTable st.db name cols [])
+  | .createTable name cols =>
+    let r := finish st (evalCreateTable st.db name cols [])
+    if r.2 == ["ok"] then ({ r.1 with tables := r.1.tables ++ [name] }, r.2) else r
   | .insert table cols rows => finish st (evalInsert st.db table cols (rows.map fun r => r.map litToVal))
   | .update table sets w => finish st (evalUpdate st.db table sets w)
   | .delete table w => finish st (evalDelete st.db table w)
@@ -75,6 +80,31 @@ def showRows (rows : List (Nat × List Tuple.Val)) : String :=
 def showSchema (sch : List Tuple.FieldDef) : String :=
   ("schema " ++ " ".intercalate (sch.map fun fd => s!"{hexOrDash fd.name.toUTF8.toList}:{Tuple.showType fd.ty}:{fd.len}")).trimAscii.toString
 
+def tableLines (db : DB) (tables : List Bytes) : DB × List String :=
+  tables.foldl (fun (acc : DB × List String) t =>
+    match fetchTable t acc.1.store with
+    | .ok (rows, _) s => ({ acc.1 with store := s }, acc.2 ++ [(s!"table {hexOrDash t} " ++ showRows rows).trimAscii.toString])
+    | .err e s => ({ acc.1 with store := s }, acc.2 ++ [s!"table {hexOrDash t} err {showSErr e}"])
+    | _ => (acc.1, acc.2 ++ [s!"table {hexOrDash t} panic"])) (db, [])
+
+/-- the database a crash before log event `k` of the last statement leaves behind -/
+def crashImage (st : St) (k : Nat) (cut : String) : DB :=
+  let batch := st.db.wal.drop st.prev.wal.length
+  let complete := if cut == "write" && k % 3 == 2 then k / 3 + 1 else k / 3
+  { store := reopen st.prev.store, wal := st.prev.wal ++ batch.take complete }
+
+def runProbes (db : DB) (tables : List Bytes) : List String → DB × List String
+  | [] => (db, [])
+  | p :: rest =>
+    let stTmp : St := { db := db, tables := tables }
+    let (st', out) := match Mkdb.Driver.Exec.parseQuery [p] with
+      | some (.ok s) => runStmt stTmp s
+      | some (.err e) => (stTmp, ["parseerr " ++ Sql.showErr e])
+      | _ => (stTmp, ["bad-op"])
+    let (db2, tl) := tableLines st'.db tables
+    let (db3, more) := runProbes db2 tables rest
+    (db3, [s!"probe {p}"] ++ out ++ tl ++ more)
+
 def parseRows (s : String) : List (List Tuple.Val) :=
   (s.splitOn "|").map fun r => (words r).map Tuple.parseVal
 
@@ -98,7 +128,7 @@ def stepLine (st : St) (line : String) : St × List String :=
     -- direct statement values: insertv <table> <col,col|-> v v | v v
     let tbl := (bytesOfHex table).getD []
     let cs := if cols == "-" then [] else (cols.splitOn ",").map fun c => (bytesOfHex c).getD []
-    finish st (evalInsert st.db tbl cs (parseRows (" ".intercalate rest)))
+    finish { st with prev := st.db } (evalInsert st.db tbl cs (parseRows (" ".intercalate rest)))
   | ["select", table] =>
     let tbl := (bytesOfHex table).getD []
     match fetchTable tbl st.db.store with
@@ -107,6 +137,22 @@ def stepLine (st : St) (line : String) : St × List String :=
     | .panic _ => ({ st with dead := true }, ["panic"])
     | .unmodelled w => ({ st with dead := true }, ["unmodelled " ++ w])
     | .fuel => ({ st with dead := true }, ["hang"])
+  | "image" :: k :: cut :: probes =>
+    let img := crashImage st (natOr k) cut
+    match recover img [] [] with
+    | .ok db =>
+      let db := { db with store := reopen db.store }
+      let (db1, tl) := tableLines db st.tables
+      let (_, pl) := runProbes db1 st.tables probes
+      (st, ["recover ok"] ++ tl ++ pl ++ ["end"])
+    | .err _ db =>
+      let db := { db with store := reopen db.store }
+      let (db1, tl) := tableLines db st.tables
+      let (_, pl) := runProbes db1 st.tables probes
+      (st, ["recover initerr"] ++ tl ++ pl ++ ["end"])
+    | .panic _ => (st, ["recover panic", "end"])
+    | .unmodelled w => (st, ["recover unmodelled " ++ w, "end"])
+    | .fuel => (st, ["recover hang", "end"])
   | ["flush"] => finish st (flush st.db [])
   | ["dump"] => (st, dumpLines st.db ++ ["end"])
   | ["reopen"] =>
@@ -141,6 +187,8 @@ structure J where
   stopped : Bool := false           -- recovery failed: nothing more to judge
   mustNotExist : List Bytes := []   -- tables whose CREATE TABLE returned an error
   prefixes : List (Bytes × List (List Tuple.Val)) := []   -- row-prefix states of refused multi-row statements
+  prevSdb : SDB := []               -- the tables before the last statement
+  lastStmt : Option Stmt := none    -- the last statement (for crash images)
 
 def phase (j : J) : String := if j.recovered then "after-recovery" else "live"
 
@@ -166,7 +214,7 @@ def applyStmt (j : J) (op : String) (stmt : Stmt) (outs : List String) : J × Li
   else
   match specStmt j.sdb stmt with
   | some sdb' =>
-    if out == "ok" then ({ j with sdb := sdb' }, [])
+    if out == "ok" then ({ j with sdb := sdb', prevSdb := j.sdb, lastStmt := some stmt }, [])
     else
       -- a valid statement was refused; its table may also have been changed
       ({ j with tainted := table :: j.tainted },
@@ -237,6 +285,74 @@ def judgeRoots (j : J) (outs : List String) : J × List String :=
     (Spec.Shape.check heap root).map fun p => vio j s!"db:shape:{(p.splitOn " ").headD p}" s!"table={n} root={root} problem=[{p}]"
   (j, vs.take 5)
 
+/-- split the outputs of an `image` op into the tables right after recovery and the probe sections -/
+def splitProbes (outs : List String) : List String × List (String × String × List String) :=
+  let rec go (ls : List String) (cur : Option (String × String × List String)) (acc : List (String × String × List String))
+      (first : List String) : List String × List (String × String × List String) :=
+    match ls with
+    | [] => (first, (match cur with | some c => acc ++ [c] | none => acc))
+    | l :: rest =>
+      if l.startsWith "probe " then
+        go rest (some ((l.drop 6).toString, "", [])) (match cur with | some c => acc ++ [c] | none => acc) first
+      else match cur with
+        | none => go rest none acc (first ++ [l])
+        | some (p, o, ts) => if o.isEmpty && !l.startsWith "table " then go rest (some (p, l, ts)) acc first
+                             else go rest (some (p, o, ts ++ [l])) acc first
+  go outs none [] []
+
+def tableOf (l : String) : Option (Bytes × List (Nat × List Tuple.Val)) :=
+  match words l with
+  | "table" :: h :: "rows" :: _ =>
+    let idx := (l.splitOn " rows").headD ""
+    some ((bytesOfHex h).getD [], parseImplRows ("rows " ++ (l.drop (idx.length + 6)).toString))
+  | _ => none
+
+/-- C03: a crash image recovers, every table is the state before the statement plus a prefix of its
+row operations, and later statements behave as on an uncrashed database in that state. -/
+def judgeImage (j : J) (op : String) (outs : List String) : J × List String :=
+  let short := (op.take 120).toString
+  let rec0 := outs.head?.getD ""
+  if rec0 != "recover ok" then (j, [vio j s!"db:image-recovery-failed:{(rec0.drop 8).toString}" s!"op=[{short}]"]) else
+  match j.lastStmt with
+  | none => (j, [])
+  | some stmt =>
+    let cands := rowPrefixStates j.prevSdb stmt
+    let (first, probes) := splitProbes (outs.drop 1)
+    let tabs := first.filterMap tableOf
+    -- every table: unchanged tables equal the state before; the statement's table equals one prefix state
+    let target : Bytes := match stmt with | .insert t _ _ => t | .update t _ _ => t | .delete t _ => t | _ => []
+    let bad := tabs.filterMap fun (n, rows) =>
+      match findTable j.prevSdb n with
+      | none => none
+      | some t =>
+        let vals := rows.map (·.2)
+        if n == target then (if cands.any (fun c => c.1 == n && c.2 == vals) then none else some n)
+        else (if vals == t.rows.map (·.vals) then none else some n)
+    if !bad.isEmpty then (j, [vio j "db:image-not-a-row-prefix" s!"tables={bad.map hexOrDash} op=[{short}] got=[{((" | ".intercalate first).take 300).toString}]"]) else
+    -- continue from the recovered state with the probe statements
+    let start : SDB := j.prevSdb.map fun t =>
+      match tabs.find? (·.1 == t.name) with
+      | some (_, rows) => { t with rows := rows.map fun r => ⟨some r.1, r.2⟩ }
+      | none => t
+    let rec run (sdb : SDB) (ps : List (String × String × List String)) (maxId : Nat) : List String :=
+      match ps with
+      | [] => []
+      | (p, o, ts) :: rest =>
+        match Mkdb.Driver.Exec.parseQuery [p] with
+        | some (.ok s) =>
+          match specStmt sdb s with
+          | some sdb' =>
+            if o != "ok" then [vio j "db:image-later-statement-refused" s!"got=[{o}] op=[{short}]"] else
+            let tabs' := ts.filterMap tableOf
+            let wrong := tabs'.filter fun (n, rows) => match findTable sdb' n with
+              | some t => rows.map (·.2) != t.rows.map (·.vals) || !Shape.strictlyAscending (rows.map (·.1))
+              | none => false
+            if !wrong.isEmpty then [vio j "db:image-later-statement-misbehaves" s!"tables={wrong.map fun w => hexOrDash w.1} op=[{short}] got=[{((" | ".intercalate ts).take 300).toString}]"]
+            else run sdb' rest maxId
+          | none => run sdb rest maxId
+        | _ => run sdb rest maxId
+    (j, run start probes 0)
+
 def judgeLine (j : J) (op : String) (outs : List String) : J × List String :=
   match words op with
   | ["case", n] => ({ caseId := n }, [])
@@ -258,7 +374,7 @@ def judgeLine (j : J) (op : String) (outs : List String) : J × List String :=
     if out == "panic" || out == "hang" then ({ j with stopped := true }, [vio j s!"db:{out}:{phase j}" s!"op=[{short}]"]) else
     match specInsert j.sdb tbl cs rows with
     | some sdb' =>
-      if out == "ok" then ({ j with sdb := sdb' }, [])
+      if out == "ok" then ({ j with sdb := sdb', prevSdb := j.sdb, lastStmt := none }, [])
       else ({ j with tainted := tbl :: j.tainted }, [vio j s!"db:valid-statement-refused:{phase j}" s!"got=[{out}] op=[{short}]"])
     | none =>
       if out == "ok" then (j, [vio j "db:invalid-statement-accepted" s!"op=[{short}]"])
@@ -272,6 +388,7 @@ def judgeLine (j : J) (op : String) (outs : List String) : J × List String :=
         ({ j with tainted := tbl :: j.tainted, prefixes := j.prefixes ++ pre }, [])
   | ["select", table] => judgeSelect j ((bytesOfHex table).getD []) outs
   | ["roots"] => judgeRoots j outs
+  | "image" :: _ => judgeImage j op outs
   | ["recover"] =>
     let out := outs.head?.getD ""
     if out == "ok" then ({ j with recovered := true }, [])
